@@ -10,7 +10,8 @@ From HV Require Import Base.Prelude Model.Chunk Base.Outcome Base.Bytes Model.Ro
 From HV Require Import Model.IOProg Model.IOProgReader Model.CodecSuper Model.CodecOhdr Model.CodecType.
 From HV Require Import Model.FileImage Model.FileImageChunked.
 From HV Require Import Proofs.FileImage Proofs.FileImageData Proofs.FileImageProd Proofs.FileImageMain Proofs.ChunkRefine
-  Proofs.FileImageChunked Proofs.FileImageChunkedRead Proofs.FileImageChunkedMain.
+  Proofs.FileImageChunked Proofs.FileImageChunkedRead Proofs.FileImageChunkedMain Proofs.FileImageGenOpen Proofs.FileImageChunkedOpen.
+From HV Require Import Model.IOProgOpen.
 
 (* For ALL link names, all basic registry datatypes, all shapes of rank 1..17 (the largest rank whose three messages fit the
    255-byte header chunk) with extents > 0, all chunk extents 1 <= cdims[i] <= dims[i] of the same rank (every grid, partial edge
@@ -30,6 +31,18 @@ Theorem C01_file_roundtrip_chunked : forall name class size cbf dims cdims data 
   blen f = c_eof size dims cdims data.
 Proof. exact file_roundtrip_chunked_stmt. Qed.
 Print Assumptions C01_file_roundtrip_chunked.
+
+(* under the same hypotheses, for every loader fuel >= 3: ReadSuperblock returns the 8/8 little-endian superblock with the root
+   header address, and hdf5.Open's loader returns the tree "/" with exactly one child, the dataset `name` at 2195 *)
+Theorem C01_file_open_chunked : forall name class size cbf dims cdims data fuel hfuel,
+  link_name_ok name = true -> basic_dtype class size cbf = true -> dims_ok_chunked dims = true -> cdims_ok dims cdims = true ->
+  blen data = product dims * size -> blen data < 4294967296 -> product cdims * size <= 1073741824 ->
+  total_chunks (num_chunks dims cdims) <= 65535 -> (3 <= fuel)%nat -> (3 < hfuel)%nat ->
+  let f := image_v2_chunked name class size cbf dims cdims data in
+  run0 f p_superblock = Ok SB' /\
+  run0 f (p_open true (blen f) fuel hfuel) = Ok (Grp [47] ROOT_ADDR [Dset name CHDR_ADDR]).
+Proof. exact file_open_chunked_stmt. Qed.
+Print Assumptions C01_file_open_chunked.
 
 (* the key step, for EVERY file shorter than 2^63 bytes (not only images): whenever the function model of the chunked reader
    (Model/ChunkIndex.v read_chunked_file: ParseBTreeV1Node, CollectAllChunks, readChunkedData) succeeds on a file whose root
